@@ -26,6 +26,27 @@ CHECKS = {
     "C07": ("exploration", "seeded simulation: filters evaluated at every reached dispatcher state on full and sub-list inputs against reference criteria",
             "A filter's result depends on the reached dispatcher state; every built-in filter, seeded compositions and available_operations() are evaluated at every state of sampled histories on the ready list and on sub-lists, compared exactly with the documented criterion, plus bounded-liveness completion by available operations only.",
             "criteria as worded in the statement; dominated filter with zero-duration input only structurally", "DESIGN 4 C07"),
+    "C09": ("fault_enumeration", "systematic fault-point enumeration inside seeded histories: every prefix x every invalid-request kind, full-state snapshot comparison and twin run",
+            "Atomicity of rejected requests must hold at every point of a history and for every kind of invalid request; inside each seeded history (dispatcher with the full observer zoo, or an environment) every prefix length x every invalid-request kind is injected, the complete public state is snapshotted before and after, and the end state is compared with a twin that never saw the faults.",
+            "any exception type is a rejection; the private query cache is not observable state; histories are sampled, fault points inside them are enumerated", "DESIGN 4 C09"),
+    "C10": ("exploration", "seeded simulation of subscription churn interleaved with dispatches, faults and resets; recording observer peers; callback log compared with a model",
+            "Notification multiplicity, order and timing depend on the interleaving of subscribe/unsubscribe/create events with dispatches and resets; harness-defined recording observers log every callback together with what the dispatcher's queries answer inside the callback, and the global log is compared with the model's.",
+            "re-entrant subscription changes inside update() are out of scope", "DESIGN 4 C10"),
+    "C11": ("exploration", "seeded simulation of dispatch histories with all feature observers attached; every value compared with a from-scratch reference recomputation after every dispatch",
+            "Incremental observers accumulate errors that depend on dispatch order and instance shape; every feature of every entity with work left is recomputed from instance + history by the reference model after each dispatch of seeded histories over the full instance swarm and observer configuration space.",
+            "feature definitions as documented; scope restrictions exactly as in the statement", "DESIGN 4 C11"),
+    "C12": ("fault_enumeration", "twin-world simulation: reset injected after every prefix of a seeded history, then a second history replayed and compared step by step with a fresh twin",
+            "Staleness after reset depends on the reset point, on observer creation order and only shows in later episodes; the reset (the library's restart) is injected after every prefix of a seeded history, chained over several episodes, and the full public snapshot is compared with freshly built objects after the reset and after every following step, for dispatcher+observers and for both environments.",
+            "twins share library code, so only staleness (not wrong values) shows; histories sampled, reset points enumerated", "DESIGN 4 C12"),
+    "C13": ("exploration", "seeded simulation of dispatcher / environment histories with resets and rejected requests; reward sums compared with the reference model after every op",
+            "The telescoping identities must hold for every prefix of every history; both reward observers are checked after every op of seeded histories (incl. non-extending dispatches, flexible choices, resets), and environment step rewards are compared with the emitted reward.",
+            "idle time defined as the sum of gaps before each scheduled operation", "DESIGN 4 C13"),
+    "C17": ("exploration", "seeded simulation of dispatch histories with the residual graph updater over all builders/options; removed-node mask and graph compared with model bounds after every dispatch",
+            "Intermediate residual-graph invariants concern every state of every history; they are evaluated against the reference model's completed/scheduled sets after every op of seeded histories, including second episodes after reset.",
+            "positive durations (statement's scope)", "DESIGN 4 C17"),
+    "C18": ("exploration", "seeded simulation of single/multi environment episodes (legal, flexible and invalid actions, mid-episode resets) across the configuration space; every observation/flag/action checked",
+            "The Gymnasium contract must hold for every configuration and every step of every episode; environments are built from seeded configurations and driven through 1-3 episodes while every returned value is checked against the declared spaces, the current graph and the model.",
+            "space membership demanded with use_padding=True only; known findings F10/F10b (spaces sized from one sample) are reported, not failed", "DESIGN 4 C18"),
 }
 
 NOT_APPLICABLE = [
